@@ -1,12 +1,44 @@
 """Per-property job tables for ./check (what to build, what to run, how deep per tier)."""
 
-HOOK_COMMITS = ["736bf48"]
+HOOK_COMMITS = ["736bf48", "2170c4f"]
 
 # Properties not (yet) claimed. Kept current as checks land.
 NOT_APPLICABLE = {p: "check not built yet in this session (see DESIGN.md section 8, build order); will be claimed once its harness package exists"
                   for p in ["C%02d" % i for i in range(1, 21)]}
 
+TREE_ASSUME = ["verif hook VerifShape is a faithful read-only walk of the real nodes (container/tree/verif_export.go)",
+               "reference model treekit.Model (sorted slice + sort.Search) is correct",
+               "rapid v1.3.0 generator/shrinker; go1.26.8 toolchain; files guarded by !go1.21 are not compiled"]
+
 CHECKS = {
+    "C01": {
+        "level": "exploration",
+        "level_text": ("Model-based property testing of tree.Map and tree.Set over 3 key types x 5 strict weak orders (incl. coarse orders with "
+                       "distinct-but-equivalent keys) x less/cmp/arbitrary-magnitude cmp construction: generated histories with macro fills "
+                       "(up to 2000/5000 keys, asc/desc/sawtooth/shuffled) and targeted drains are compared call by call with a sorted-slice "
+                       "model, through two copies of the Map/Set value; the concurrent clause runs generated writer/reader partitions under the "
+                       "Go race detector. Holds on everything explored; not a proof"),
+        "level_note": "Trusts the reference model, the verif hook only for classification labels (height), rapid, the Go race detector's happens-before analysis for the executed schedules.",
+        "technique": "stateful property-based testing (rapid) against a reference model; race-detector runs for the concurrent clause",
+        "rule": ("rapid-generated plans: optional prefill + 1-60 ops (Put/Delete/Get/Contains/Len/First/Last/Iterate/Range/RangeReverse with all bound kinds and "
+                 "state-relative keys, macro Fill/Drain/ShapeDrain); every call's result compared with the model, full observation every 8th op and at the end. "
+                 "non-trivial = tree reached height >= 2 AND a present key was deleted AND a bounded range query ran; distinct = distinct plan JSON. "
+                 "kind 'concurrent' = generated (tree size, writer/reader key partition) run under -race"),
+        "assumptions": TREE_ASSUME,
+        "jobs": [{"pkg": "c01tree", "run": "TestTreeModel", "kinds": ["treeplan"], "shards_quick": 4, "scale_quick": 0.3, "scale_thorough": 8, "shards_thorough": 16}],
+    },
+    "C03": {
+        "level": "exploration",
+        "level_text": ("The C01 histories plus shape-aimed drains (steal-left/right, merge, cascades, internal separators chosen from the hook's "
+                       "read-only view) with a full structural walk after every elementary insert/delete: ordering, occupancy 7..15, child counts, parent links, "
+                       "uniform leaf depth, cleared vacated slots, key count == Len, depth <= 1+floor(log8((n+1)/2)); plus comparator-call bounds on every Get/Contains"),
+        "level_note": "Trusts the read-only verif hook walk (container/tree/verif_export.go), the integer depth bound in treekit.LevelsBound, rapid.",
+        "technique": "stateful property-based testing (rapid) with a structural invariant checker after every step",
+        "rule": ("same generator as C01 with the structural walk enabled (every elementary op up to 600 keys, every 16th above, always at op boundaries); "
+                 "non-trivial = a node merge was observed (node count dropped) on a tree that reached height >= 3; distinct = distinct plan JSON"),
+        "assumptions": TREE_ASSUME,
+        "jobs": [{"pkg": "c03shape", "kinds": ["shapeplan"], "shards_quick": 4, "scale_quick": 0.25, "scale_thorough": 6, "shards_thorough": 16}],
+    },
     "C04": {
         "level": "exploration",
         "level_text": ("Model-based property testing: thousands of generated operation histories (macro-ops reach wrapped, full, "
